@@ -282,7 +282,8 @@ func c18Value(t *rapid.T, label string) string {
 
 func c18Gen(t *rapid.T) c18Case {
 	o := gen.GenOpts{
-		Encodings: []string{"quoted-printable", "base64", "8bit"}, MaxParts: 2, MaxEmbeds: 1, MaxAttach: 2, AllowNoBody: true,
+		Boundaries: true,
+		Encodings:  []string{"quoted-printable", "base64", "8bit"}, MaxParts: 2, MaxEmbeds: 1, MaxAttach: 2, AllowNoBody: true,
 		PartEncs: []string{"", "quoted-printable", "base64"}, FileEncs: []string{"", "base64"}, TextOnlyQP: true, Chunking: true,
 		Sources: []string{"writer", "writer", "reader", "readseeker"}, Vias: []string{"writer", "writer", "string"},
 	}
